@@ -1515,6 +1515,10 @@ def chan_send(ex, st, ch, x, ins):
         raise PathEnd('panic', 'deadlock: send on nil channel blocks forever at %s' % ins.get('pos'))
     b = st.heap.get(('chanbuf', ch.cid))
     if b is None:
+        if getattr(st, 'track_all', False):
+            # inside a tracked invocation: hand-over to another goroutine; which one, and what it does with the value, is outside this path
+            st.events.append(('chan_handover', 'send', ch.cid, ch.cid < st.heap.get(('inv_floor',), 0), ins.get('pos')))
+            return
         raise Unsupported('blocking send on an unbuffered channel at %s' % ins.get('pos'))
     items, cap_ = b
     if len(items) >= cap_:
@@ -1533,6 +1537,11 @@ def chan_recv(ex, st, fr, ins, ch):
         st.heap[('chanbuf', ch.cid)] = (items[1:], cap_)
         ex.setreg(fr, ins, (items[0], z3.BoolVal(True)) if ins.get('commaok') else items[0])
         return
+    if getattr(st, 'track_all', False):
+        shared = ch.cid < st.heap.get(('inv_floor',), 0)
+        if shared:
+            raise PathEnd('shared_recv', 'the invocation takes a value from a channel that exists before it and is shared with every other invocation (%s): which value it gets depends on the other requests in flight' % ins.get('pos'))
+        raise Unsupported('receive of a value produced by another goroutine at %s' % ins.get('pos'))
     cev(st, 'recv', ch.cid, pos=ins.get('pos'))
     ex.setreg(fr, ins, (Struct([]), z3.BoolVal(False)) if ins.get('commaok') else Struct([]))
 
@@ -1633,6 +1642,7 @@ BASE.update({'chan:select': chan_select})
 
 # ------------------------------------------------------------------------------------------ C13: shared-state footprint of one invocation
 def i_begin_invocation(ex, st, args, ctx):
+    st.heap[('inv_floor',)] = new_oid()
     st.epoch = st.nobj + 1
     st.track_all = True
     st.events.append(('invocation-begin',))
@@ -1987,3 +1997,28 @@ BASE.update({'bufio.NewWriterSize': bufio_NewWriterSize, 'bufio.NewWriter': bufi
              'opaque:pk.UnsafeReadFrom': guard_readahead(section_read('pk')), 'opaque:pk.ReadFrom': guard_readahead(section_read('pk')),
              'opaque:vk.UnsafeReadFrom': guard_readahead(section_read('vk')), 'opaque:vk.ReadFrom': guard_readahead(section_read('vk')),
              'opaque:cs.ReadFrom': guard_readahead(section_read('cs'))})
+
+
+def i_deployed_handler(ex, st, args, ctx):
+    """the handler value server.Run installs for /prove: taken from the recorded mux registration, looking through the promhttp
+    instrumentation wrappers (their transparency -- they call the next handler exactly once and do not alter the response -- is the
+    documented promhttp contract; the wiring itself is the subject of C20)"""
+    used('promhttp.InstrumentHandler*: calls the wrapped handler exactly once with the same request, response unchanged')
+    for ev in reversed(st.events):
+        if ev[0] == 'ext' and (ev[1].endswith('.Handle') or ev[1].endswith('.HandleFunc')):
+            a = ev[2]
+            pat = next((x for x in a if isinstance(x, Str)), None)
+            if pat is not None and pat.z is not None and z3.is_string_value(z3.simplify(pat.z)) and z3.simplify(pat.z).as_string() == '/prove':
+                cur = a[-1]
+                while True:
+                    inner = cur.v if isinstance(cur, Iface) else cur
+                    if isinstance(inner, Opaque) and inner.tag == 'ext':
+                        if 'promhttp.InstrumentHandler' not in inner.callee or len(inner.args) < 2:
+                            raise Unsupported('the /prove handler is wrapped by %s, which has no contract in the encoder' % inner.callee)
+                        cur = inner.args[1]
+                        continue
+                    return cur
+    raise Unsupported('server.Run did not register a handler for /prove in a way the encoder recognises')
+
+
+INTRINSICS.update({'verifDeployedHandler': i_deployed_handler})
